@@ -193,6 +193,11 @@ def run_job(args):
                                                    "params": job.params, "path_inputs": _short(wit)})
                         if do_val:
                             sym_obs = c.eval_obs(m)
+                            co = None
+                            if res.get("validated_coincident", 0) < 6 or rng.random() < 0.2:
+                                m2 = eng.coincidence_model()
+                                if m2 is not None:
+                                    co = (eng.model_values(m2), c.eval_obs(m2))
                             eng.end()
                             out, label, cc, exc = run_concrete(job.fn, job.params, wit)
                             if out != "ok":
@@ -207,6 +212,19 @@ def run_job(args):
                                                                     _norm(cc.obs)[:6]))
                                 break
                             res["validated"] += 1
+                            # ... and once more under a model in which all byte-string inputs coincide (equal / prefix /
+                            # substring relations between addresses and buffers that a default model rarely exhibits)
+                            if co is not None:
+                                if True:
+                                    wit2, obs2 = co
+                                    out, label, cc, exc = run_concrete(job.fn, job.params, wit2)
+                                    if out != "ok" or _norm(obs2) != _norm(cc.obs):
+                                        res["harness_error"] = (
+                                            "translation validation (coincident byte inputs): symbolic path holds but the "
+                                            "concrete run gives %s %s (%r) / different observations for inputs %s"
+                                            % (out, label, exc, _short(wit2)))
+                                        break
+                                    res["validated_coincident"] = res.get("validated_coincident", 0) + 1
             eng.end()
     except Exception:  # harness / engine bug
         res["harness_error"] = traceback.format_exc()
